@@ -9,7 +9,7 @@ import collections
 import importlib
 import re
 
-PROP_GROUPS = {'C12': ['sortkey'], 'C04': ['driver'], 'C15': ['fields'], 'C01': ['flow'], 'C07': ['flow', 'ejson'], 'C11': ['join'], 'C02': ['join'], 'C10': ['matcher'], 'C14': ['handlers', 'vloop'], 'C17': ['rows'], 'C13': ['load']}
+PROP_GROUPS = {'C12': ['sortkey'], 'C04': ['driver'], 'C15': ['fields'], 'C01': ['flow'], 'C07': ['flow', 'ejson', 'ejson_hook'], 'C11': ['join'], 'C02': ['join'], 'C10': ['matcher'], 'C14': ['handlers', 'vloop'], 'C17': ['rows'], 'C13': ['load']}
 
 
 # ---------------------------------------------------------------- encoding
@@ -579,6 +579,108 @@ def run_sortkey(ctx, b, n):
     b.flush()
 
 
+def run_ejson_hook(ctx, b, n):
+    """`CommonJSONDecoder.object_hook`: the real hook on objects with one tag (payload that parses / does not), several tags,
+    no tag, against the translated hook; every leaf parser call (performed for real) as a table"""
+    import datetime
+    import decimal
+    import isodate
+    EJ = importlib.import_module('dataflows.helpers.extended_json')
+    rng = ctx.rng('pycorr-ejson-hook')
+    TPF, DTPF, DPF = EJ.TIME_P_FORMAT, EJ.DATETIME_P_FORMAT, EJ.DATE_P_FORMAT
+
+    def val(x):
+        return opq('val', repr(x))
+
+    def attempt(f):
+        try:
+            return ('ok', f())
+        except decimal.InvalidOperation:
+            return ('raise', 'InvalidOperation')
+        except ValueError:
+            return ('raise', 'ValueError')
+        except TypeError:
+            return ('raise', 'TypeError')
+    payloads = {
+        'type{decimal}': ['1.50', 'abc', '-0', ''],
+        'type{time}': ['10:20:30', '25:00:00', 'x'],
+        'type{date}': ['2020-02-29', '2021-02-29', '20200101'],
+        'type{duration}': ['P1DT2H', 'P1Y2M', 'nonsense'],
+        'type{set}': [[1, 2, 2], [], ['a']],
+        'type{datetime}': [['2020-01-02T03:04:05', None, None], ['2020-01-02T03:04:05', 3600, 'X'], ['2020-01-02T03:04:05', -19800.0, 'UTC-05:30'],
+                           ['bad', None, None], ['2020-01-02T03:04:05', None], 'abc', ['2020-13-02T03:04:05', 0, 'UTC']],
+    }
+    for i in range(n):
+        tags = rng.sample(sorted(payloads), 1 if i % 4 else rng.choice([0, 2, 3]))
+        obj = {t: rng.choice(payloads[t]) for t in tags}
+        if rng.random() < 0.3:
+            obj['other'] = 1
+        try:
+            r = EJ.CommonJSONDecoder.object_hook(dict(obj))
+            if isinstance(r, dict):
+                real = {'ok': canon_py(r)}
+            elif isinstance(r, (set, frozenset)):
+                real = {'ok': canon_py(r)}
+            else:
+                real = {'ok': ['o', 'val', repr(r)]}
+        except TypeError:
+            real = {'err': 'typeError'}
+        except Exception as e:  # noqa
+            real = {'err': 'user:' + type(e).__name__}
+        ext = []
+
+        def add(name, args, outcome, wrap=val):
+            ext.append([name, args, wrap(outcome[1]) if outcome[0] == 'ok' else {'raise': outcome[1]}])
+        if 'type{decimal}' in obj:
+            add('decimal.Decimal', [to_pv(obj['type{decimal}'])], attempt(lambda: decimal.Decimal(obj['type{decimal}'])))
+        for t, fmt, part in (('type{time}', TPF, 'time'), ('type{date}', DPF, 'date')):
+            if t in obj:
+                o = attempt(lambda: datetime.datetime.strptime(obj[t], fmt))
+                add('datetime.datetime.strptime', [to_pv(obj[t]), to_pv(fmt)], o, wrap=lambda x: opq('parsed', repr(x)))
+                if o[0] == 'ok':
+                    ext.append(['.' + part, [opq('parsed', repr(o[1]))], val(getattr(o[1], part)())])
+        if 'type{duration}' in obj:
+            add('isodate.parse_duration', [to_pv(obj['type{duration}'])], attempt(lambda: isodate.parse_duration(obj['type{duration}'])))
+        p = obj.get('type{datetime}')
+        if isinstance(p, (list, str)) and len(p) == 3:
+            iso, ofs, nm = p
+            o = attempt(lambda: datetime.datetime.strptime(iso, DTPF))
+            add('datetime.datetime.strptime', [to_pv(iso), to_pv(DTPF)], o, wrap=lambda x: opq('parsed', repr(x)))
+            if o[0] == 'ok' and nm is not None:
+                ofs_pv = to_pv(ofs) if isinstance(ofs, int) else opq('float', repr(ofs))
+                td = attempt(lambda: datetime.timedelta(seconds=ofs))
+                add('datetime.timedelta', [{'t': 'tuple', 'v': [to_pv('seconds'), ofs_pv]}], td, wrap=lambda x: opq('td', repr(x)))
+                ext.append(['.date', [opq('parsed', repr(o[1]))], opq('d', repr(o[1].date()))])
+                ext.append(['.time', [opq('parsed', repr(o[1]))], opq('t', repr(o[1].time()))])
+                if td[0] == 'ok':
+                    tz = attempt(lambda: datetime.timezone(td[1], nm))
+                    add('datetime.timezone', [opq('td', repr(td[1])), to_pv(nm)], tz, wrap=lambda x: opq('tz', repr(x)))
+                    if tz[0] == 'ok':
+                        ext.append(['datetime.datetime.combine', [opq('d', repr(o[1].date())), opq('t', repr(o[1].time())), opq('tz', repr(tz[1]))],
+                                    val(datetime.datetime.combine(o[1].date(), o[1].time(), tz[1]))])
+            elif o[0] == 'ok':
+                # the parsed value itself is returned
+                ext[-1][2] = val(o[1])
+
+        def pv_obj(x):
+            if isinstance(x, float):
+                return opq('float', repr(x))
+            if isinstance(x, list):
+                return {'t': 'list', 'v': [pv_obj(e) for e in x]}
+            if isinstance(x, dict):
+                return {'t': 'dict', 'v': [[to_pv(k), pv_obj(v)] for k, v in x.items()]}
+            return to_pv(x)
+
+        def canon_obj(c):
+            return c
+        if 'ok' in real and isinstance(real['ok'], list) and real['ok'] and real['ok'][0] == 'dict':
+            real = {'ok': canon_pv(pv_obj(obj))}
+        b.add_op({'op': 'pyeval', 'fn': 'ejson_hook', 'mode': 'value', 'want_tag': True, 'ext': ext,
+                  'args': [to_pv(None), pv_obj(obj), to_pv(TPF), to_pv(DTPF), to_pv(DPF)]}, 'ejson_hook', real, post=lambda v: v,
+                 case=[sorted(obj), repr(obj)[:120]])
+    b.flush()
+
+
 def exc_pv(tag):
     return to_pv({'__exception__': tag, 'errors': []})
 
@@ -887,7 +989,7 @@ def run_flow(ctx, b, n):
     b.flush()
 
 
-RUNNERS = {'sortkey': run_sortkey, 'ejson': run_ejson, 'driver': run_driver, 'fields': run_fields, 'flow': run_flow, 'load': run_load, 'vloop': run_vloop, 'join': run_join, 'matcher': run_matcher, 'handlers': run_handlers, 'rows': run_rows}
+RUNNERS = {'ejson_hook': run_ejson_hook, 'sortkey': run_sortkey, 'ejson': run_ejson, 'driver': run_driver, 'fields': run_fields, 'flow': run_flow, 'load': run_load, 'vloop': run_vloop, 'join': run_join, 'matcher': run_matcher, 'handlers': run_handlers, 'rows': run_rows}
 
 
 def run(ctx, groups=None, n=None):
